@@ -84,6 +84,92 @@ def _tri(R, rule, key, verdict, ok="", bad="", und="", loc=None):
         R.undecided(rule, key, und or ("not decided on this shape of the code: " + ok), loc)
 
 
+def _side(R):
+    """the direction of the property the instances are reported under: C01 — the type must admit every real response — is violated by a type that is
+    too *narrow* (a member or a `| null` lost, a branch dropped, a panic: no type at all); C02 — the type admits nothing impossible — by one that is
+    too *wide* (a `| null` invented, an impossible branch, a missing `?: never` marker)"""
+    return "narrow" if getattr(R, "prop", "C02") == "C01" else "wide"
+
+
+class _Toward:
+    """a view of a reporter for one instance whose deviation has a known direction: the deviation is a violation only of the property of that
+    direction; under the dual property the instance HOLDS (that property is not touched by it)"""
+
+    def __init__(self, R, dirs):
+        self.R, self.dirs = R, set(dirs)
+
+    def __getattr__(self, name):
+        return getattr(self.R, name)
+
+    def violated(self, rule, key, msg, loc=None, detail=None):
+        if _side(self.R) in self.dirs or not self.dirs:
+            return self.R.violated(rule, key, msg, loc, detail)
+        return self.R.holds(rule, key, "the code deviates here, but only towards the dual property (too %s a type), where it is reported: %s"
+                            % ("narrow" if _side(self.R) == "wide" else "wide", msg[:200]), loc, detail)
+
+    def check(self, rule, key, cond, msg_ok="", msg_bad="", loc=None, detail=None):
+        if cond:
+            return self.R.holds(rule, key, msg_ok, loc, detail)
+        return self.violated(rule, key, msg_bad or msg_ok, loc, detail)
+
+
+BOTH = ("narrow", "wide")
+_LENIENT = {}
+
+
+def _var_dirs(P):
+    """direction of "a variable that @skip/@include uses is not among the branch's variables": with a skip test that panics on a missing variable no type
+    is generated at all (too narrow only); with a lenient look-up the selection is silently kept or omitted, which also makes impossible members"""
+    if id(P) not in _LENIENT:
+        _LENIENT[id(P)] = _lookup_lenient(P)
+    return ("narrow",) if _LENIENT[id(P)] is False else BOTH
+
+
+def _lookup_lenient(P):
+    """does the skip test return normally for `@skip(if: $v)` / `@include(if: $v)` when the branch lists no variable at all?  (None: not read)"""
+    try:
+        f = _csd(P)
+        for d in ("skip", "include"):
+            def thunk(ab, d=d):
+                br = _t_obj(P, BC, {"boolean_variables": []})
+                return ab.truth(ab.call(f.path, _params(f, [("BranchingCondition", br), ("Directive", [_t_directive(P, d, ("var", _Opq("$v")))])])))
+            paths = _Abs(P).explore(thunk)
+            if any(st == "ok" for st, _, _ in paths):
+                return True
+            if not paths:
+                return None
+        return False
+    except (_Unknown, AnchorMissing, KeyError, IndexError, TypeError, AttributeError, RecursionError, ValueError):
+        return None
+
+
+def _null_dirs(have, want):
+    """which way a TypeScript type deviates from the spec table: a `| null` that is missing makes it too narrow, one that is invented too wide"""
+    return _null_dirs_rec(have, want) or set(BOTH)
+
+
+def _null_dirs_rec(have, want):
+    def parts(t):
+        ms = set(t[1]) if isinstance(t, tuple) and t and t[0] == "union" else {t}
+        return _NULL in ms, ms - {_NULL}
+    hn, hr = parts(have)
+    wn, wr = parts(want)
+    dirs = set()
+    if wn and not hn:
+        dirs.add("narrow")
+    if hn and not wn:
+        dirs.add("wide")
+    if len(hr) == 1 and len(wr) == 1:
+        a, b = next(iter(hr)), next(iter(wr))
+        if isinstance(a, tuple) and isinstance(b, tuple) and a and b and a[0] == "array" and b[0] == "array":
+            dirs |= _null_dirs_rec(a[1], b[1])
+        elif a != b:
+            dirs |= set(BOTH)
+    elif hr != wr:
+        dirs |= set(BOTH)
+    return dirs
+
+
 def _role(P, name, ins, out):
     """the function anchored as `name`; if it was renamed, the unique non-test function of the printer crate with that signature role
     (one parameter type mentioning each of `ins`, return type mentioning `out`)"""
@@ -199,7 +285,8 @@ def _a_leaf_nullability(P, R):
             R.undecided("R02-a", key, "the type of the leaf was not found in what %s returns" % f.path, loc=f.loc())
             continue
         bad = [g for g in got if _any_target(g) != _any_target(want)]
-        R.check("R02-a", key, not bad, "table: a leaf of type %s is typed %s" % (t, _show_ts(want)),
+        dirs = set().union(*[_null_dirs(_any_target(g), _any_target(want)) for g in bad]) if bad else set()
+        _Toward(R, dirs).check("R02-a", key, not bad, "table: a leaf of type %s is typed %s" % (t, _show_ts(want)),
                 "table: %s types a leaf field of GraphQL type %s as %s, the spec table gives %s (a type is nullable unless wrapped in Non-Null, list "
                 "elements are decided afresh): %s" % (f.path, t, _show_ts(bad[0]) if bad else "", _show_ts(want), _null_diff(bad[0], want) if bad else ""), loc=f.loc())
 
@@ -232,7 +319,8 @@ def _a_tree_nullability(P, R):
         if got is None:
             continue
         bad = [g for g in got if g != want]
-        _tri(R, "R02-a", key, None if not got else not bad, "table: an object selection of type %s is typed %s" % (t, _show_ts(want)),
+        dirs = set().union(*[_null_dirs(g, want) for g in bad]) if bad else set()
+        _tri(_Toward(R, dirs), "R02-a", key, None if not got else not bad, "table: an object selection of type %s is typed %s" % (t, _show_ts(want)),
              "table: %s types an object selection of GraphQL type %s as %s, the spec table gives %s (M = the union of its branches): %s"
              % (f.path, t, _show_ts(bad[0]) if bad else "", _show_ts(want), _null_diff(bad[0], want) if bad else ""),
              "no path of %s returns normally on this input" % f.path, loc=f.loc())
@@ -321,8 +409,8 @@ def _a_field_types(P, R):
     if G is None:
         return
     gf, paths, names = G
-    leafs, nested, bad_leaf, bad_nested = 0, 0, None, None
-    FT = ("field", TSD + "Field", "type")
+    leafs, nested, bad_leaf, bad_nested, foreign, unknown = 0, 0, None, None, None, False
+    FT, PO = ("field", TSD + "Field", "type"), ("field", BC, "parent_obj")
     for st, v, evs in paths:
         if st != "ok":
             continue
@@ -336,6 +424,8 @@ def _a_field_types(P, R):
                     ty = o.get("type")
                     if not (isinstance(ty, _Opq) and ty.ref is None and FT in ty.origin):
                         bad_leaf = ty
+                    elif PO not in ty.origin:
+                        foreign, unknown = (ty, unknown) if any(x[0] == "field" and x[1] == BC for x in ty.origin) else (foreign, True)
         for ev in evs:
             if ev[0] == "call" and ev[1] == names.get("gt"):
                 tys = [a for a, p in zip(ev[2], P.fns[ev[1]].sig_inputs) if "type::Type<" in p]
@@ -343,9 +433,16 @@ def _a_field_types(P, R):
                     nested += 1
                     if not (isinstance(tys[0], _Opq) and tys[0].ref is None and FT in tys[0].origin):
                         bad_nested = tys[0]
+                    elif PO not in tys[0].origin:
+                        foreign, unknown = (tys[0], unknown) if any(x[0] == "field" and x[1] == BC for x in tys[0].origin) else (foreign, True)
     _tri(R, "R02-a", "leaf-field-type", None if not leafs else bad_leaf is None, "paths: a leaf carries exactly the schema type of its field (wrappers included)",
          "paths: %s builds a leaf whose type is %r, not the `type` of the field definition it was looked up from: wrappers (and with them `| null` / `[]`) "
          "of the schema type are lost or invented" % (gf.path, bad_leaf), "no path of %s builds an ordinary leaf" % gf.path, loc=gf.loc())
+    _tri(_Toward(R, ["wide"]), "R02-a", "field-type-of-branch-object", False if foreign is not None else (None if unknown or not (leafs or nested) else True),
+         "paths: the field definition a selection is typed with is looked up on the branch's own object type",
+         "paths: %s types a selection with a field definition that is not looked up on the branch's object (`parent_obj`) — e.g. the declaration of the interface "
+         "the selection set is written against: an object may declare a narrower type for the field, so the branch admits values that object never returns"
+         % gf.path, "where %s takes the field definitions from is not read (they do not visibly come from the branching condition)" % gf.path, loc=gf.loc())
     _tri(R, "R02-a", "nested-field-type", None if not nested else bad_nested is None, "paths: a nested selection is typed with the schema type of its field (wrappers included)",
          "paths: %s types a nested selection with %r, not the `type` of the field definition" % (gf.path, bad_nested),
          "no path of %s types a nested selection through get_type_for_selection_set" % gf.path, loc=gf.loc())
@@ -839,6 +936,25 @@ def _e_branches(P, R):
                 "merge_selection_trees decides whether to use a right-hand branch by a test that reads only %s of it (not %s): a partner whose other field list is "
                 "non-empty is treated as absent, its fields are not merged into the branch — a key selected there stays `?: never`"
                 % (partial, sorted(CONTENT - set(partial or []))), loc=g0.loc())
+    # a left branch is merged with one partner: the merged branch is not built once per right-hand branch of the type
+    crossed = False
+    for i, (n, _) in enumerate(acc):
+        if n.get("k") == "MethodCall" and n["method"] in ("push", "push_back", "extend") and n["args"] and "SelectionTreeBranch" in peel_ty(n["recv"].get("t") or ""):
+            da = pv.atoms(n["args"][-1])
+            if ("param", "left") in da and (("param", "right") in da or from_right(n["args"][-1])):
+                inner = [cx[1] for cx in enclosing_contexts(g, i) if cx[0] == "loop"]
+                srcs = [_loop_source(g, lp) for lp in inner]
+                over_right = [x for x in srcs if x is not None and "SelectionTreeBranch" in peel_ty(x.get("t") or "")
+                              and (("param", "right") in pv.atoms(x) or from_right(x)) and ("param", "left") not in pv.data_atoms(x)]
+                if over_right:
+                    reads = {y[2] for x in over_right for y in pv.atoms(x) if y[0] == "field" and y[1] == STB}
+                    if reads <= {"type_name", "unaliased_fields", "aliased_fields"}:
+                        crossed = True
+    if partners or crossed:
+        _Toward(R, ["wide"]).check("R02-e", "branch-pairing:one-partner", not crossed, "a branch is merged with one partner",
+                "merge_selection_trees builds a merged branch for *every* right-hand branch of the same object type (a loop over the right side selected by "
+                "`type_name` alone): branches do not carry the assignment they were generated under, so a left branch made for $v = false is also combined with the "
+                "right branch made for $v = true — the union gains members no execution can return", loc=g0.loc())
     # the right side is not used up while the left branches are paired
     loops = [(i, n) for i, (n, _) in enumerate(acc) if n.get("k") == "Match" and n.get("src") == "ForLoopDesugar" and ("param", "left") in pv.atoms(n["scrut"])]
     used_up = []
@@ -945,7 +1061,7 @@ def _fast_equal_sound(P, R, rule):
 # =================================================================================================================== R02-f
 def r02f(P, R):
     """only possible (type, variables) branches: type-condition filter and skip/include tables"""
-    _sections(P, R, "R02-f", _f_condition_table, _f_sites, _f_skipped_fragment, _f_skip_table, _f_variables, _f_skip_coverage, _f_possible_types)
+    _sections(P, R, "R02-f", _f_condition_table, _f_sites, _f_skipped_fragment, _f_spread_twice, _f_skip_table, _f_variables, _f_skip_coverage, _f_possible_types)
 
 
 def _f_condition_table(P, R):
@@ -957,7 +1073,7 @@ def _f_condition_table(P, R):
     if not ms:
         R.undecided("R02-f", "type-condition:table", "no `match` over TypeDefinition in %s or its helpers: how the kinds of type condition are told apart is "
                     "not recognised" % f0.path, loc=f0.loc())
-    for m in ms[:1]:
+    for m in _kind_match(ms):
         tab = variant_table(m)
         need = {"Object": [(TSD + "ObjectDefinition", "name")], "Interface": [(TSD + "ObjectDefinition", "interfaces"), (TSD + "InterfaceDefinition", "name")],
                 "Union": [(TSD + "UnionDefinition", "possible_types"), (TSD + "ObjectDefinition", "name")]}
@@ -1002,6 +1118,12 @@ def _f_condition_table(P, R):
 POSITIONAL_METHODS = {"first", "last", "nth", "get", "take", "skip", "step_by", "first_mut", "last_mut", "split_first", "split_last"}
 
 
+def _kind_match(ms):
+    """of several matches over TypeDefinition, the kind table: the first one with explicit arms for Object, Interface and Union"""
+    full = [m for m in ms if {"Object", "Interface", "Union"} <= set(variant_table(m))]
+    return (full or ms)[:1]
+
+
 def _positional_over(fn, fields):
     """[(field, method)]: method chains that start at one of the schema collections `fields` [(adt, field)] and pick elements by position"""
     out = []
@@ -1039,8 +1161,9 @@ def _f_sites(P, R):
             elif ev[0] == "assume" and any(x[0] == "call" and x[1] == names["cfc"] for x in ev[1]) and ("eq",) not in ev[1]:
                 if ev[2] is True:
                     applies.append(ev)
-            elif ev[0] == "assume" and ev[2] == "None" and FRAG[("field", A + "selection_set::InlineFragment", "selection_set")][1] in ev[1]:
-                no_condition = True
+            elif ((ev[0] == "assume" and ev[2] == "None") or (ev[0] == "assume-not" and ev[2] == "Some")) \
+                    and FRAG[("field", A + "selection_set::InlineFragment", "selection_set")][1] in ev[1]:
+                no_condition = True       # (`None => ..` and `Some(c) if .. => .., _ => ..` both say: no type condition)
             elif ev[0] == "call" and ev[1] == names["gf"]:
                 ss = [a for a, p in zip(ev[2], gf.sig_inputs) if "SelectionSet" in p]
                 org = _origin(ss[0]) if len(ss) == 1 else set()
@@ -1097,12 +1220,59 @@ def _f_skipped_fragment(P, R):
                 deeper = any((x[0] == "iter" and id(x[2]) in inside) or (x[0] == "call" and any(id(_d(a)) in inside or id(a) in inside for a in x[2])) for x in evs[i + 1:])
                 if not_field and not deeper:
                     bad = True
-    _tri(R, "R02-f", "skip-table:skipped-fragment-keys", None if not seen else bad is None,
+    _tri(_Toward(R, ["wide"]), "R02-f", "skip-table:skipped-fragment-keys", None if not seen else bad is None,
          "paths: a skipped fragment yields a marker for every key the fragment contributes",
          "paths: for a fragment whose @skip/@include excludes it, %s computes the `?: never` markers without its own walk of the fragment's selection set, and drops "
          "a selection of that set that is not a field (a nested spread / inline fragment) without descending into it: the keys nested fragments contribute get no "
          "marker, so the skipped branch admits objects that carry them" % gf.path,
          "no abstract path of %s takes the skip test of a fragment to be true" % gf.path, loc=gf.loc())
+
+
+def _f_spread_twice(P, R):
+    """a fragment spread twice in one selection set: whether the second spread is expanded must not depend on the first one having been *skipped* (its
+    markers say "absent", the second spread may say "present").  Read from the collector's paths on the selection list [...F d1, ...F d2] with an
+    applying type condition: a path that takes the skip test of the first spread to be true and then neither expands the fragment again nor looks at the second spread's
+    directives is the evidence."""
+    gf = _gf(P)
+    cfc = _role(P, OT + "type_printer::check_fragment_condition", ["QueryTypePrinterContext", "ObjectDefinition", "str"], "bool")
+    csd = _csd(P)
+    gt = P.fn(OT + "type_printer::get_type_for_selection_set")
+    ext = P.fn("nitrogql_semantics::direct_fields_of_output_type::direct_fields_of_output_type", required=False)
+    key = "spread-twice"
+
+    def thunk(ab):
+        name = _Opq("F")
+        d = [_Opq("directives of the first spread", [("term", "d1")]), _Opq("directives of the second spread", [("term", "d2")])]
+        sels = [_t_var(P, A + "selection_set::Selection", "FragmentSpread",
+                       [_t_obj(P, A + "selection_set::FragmentSpread", {"fragment_name": _t_ident(P, name), "directives": x})]) for x in d]
+        ss = _t_obj(P, A + "selection_set::SelectionSet", {"selections": sels})
+        return ab.call(gf.path, _params(gf, [("SelectionSet", ss)]), top=True)
+    stops = [gf.path, cfc.path, csd.path, gt.path] + ([ext.path] if ext else [])
+    try:
+        paths = _Abs(P, stops, hooks={cfc.path: lambda ab, args: True}).explore(thunk)
+    except (_Unknown, AnchorMissing) as e:
+        R.undecided("R02-f", key, "the abstract evaluation of %s does not decide how a fragment spread twice is collected (%s)" % (gf.path, e), loc=gf.loc())
+        return
+    except (KeyError, IndexError, TypeError, AttributeError, RecursionError, ValueError) as e:
+        R.undecided("R02-f", key, "the abstract evaluation of %s does not decide this (evaluator: %r)" % (gf.path, e), loc=gf.loc())
+        return
+    seen = lost = 0
+    for st, v, evs in paths:
+        if st != "ok" or any(e[0] == "capped" for e in evs):
+            continue
+        first_skipped = any(e[0] == "assume" and e[2] is True and ("term", "d1") in e[1] and any(x[0] == "call" and x[1] == csd.path for x in e[1]) for e in evs)
+        if not first_skipped:
+            continue
+        seen += 1
+        second_looked_at = any(e[0] == "call" and e[1] == csd.path and any(("term", "d2") in _origin(a) for a in e[2]) for e in evs)
+        if sum(1 for e in evs if e[0] == "call" and e[1] == gf.path) < 2 and not second_looked_at:
+            lost += 1
+    _tri(_Toward(R, ["narrow"]), "R02-f", key, None if not seen else not lost,
+         "paths: a fragment spread again after a skipped spread of it is expanded again",
+         "paths: given `...F @dir1 ...F @dir2`, %s has a path on which the first spread is skipped and the fragment is not expanded for the second one (state "
+         "recorded for the first spread — before its @skip/@include was looked at — suppresses it): the fragment's fields stay `?: never` although the second spread "
+         "selects them, real responses are not members of the type" % gf.path,
+         "no abstract path of %s takes the skip test of the first of two spreads to be true" % gf.path, loc=gf.loc())
 
 
 def _progeny(o):
@@ -1176,7 +1346,8 @@ def _f_skip_table(P, R):
                 name = ev[2]
             elif ev[0] == "assume-not" and DN in ev[1] and not any(x[0] == "field" and x[2] == "arguments" for x in ev[1]):
                 other = True
-            elif ev[0] == "assume" and isinstance(ev[2], bool) and ("eq",) not in ev[1] and (BV in ev[1] or LV in ev[1]):
+            elif ev[0] == "assume" and isinstance(ev[2], bool) and ("eq",) not in ev[1] and (BV in ev[1] or LV in ev[1]) \
+                    and not any(x[0] == "call" and x[1] in ("contains", "any", "all", "position", "binary_search") for x in ev[1]):
                 cond = ev[2]
         if name is None and not other:
             continue
@@ -1225,7 +1396,7 @@ def _f_variables(P, R, rule="R02-f"):
             if met and not called and isinstance(_d(v), list) and not _d(v):
                 lost += 1
         if lost:
-            R.violated(rule, "variables-every-selection", "paths: %s has a path that has met a selection of its selection set and returns no variables without handing "
+            _Toward(R, _var_dirs(P)).violated(rule, "variables-every-selection", "paths: %s has a path that has met a selection of its selection set and returns no variables without handing "
                        "the selection set to the visitor: a variable used by @skip/@include inside that selection (e.g. on the fields of a directive-less "
                        "fragment) is not branched on, so fields guarded by it are typed as if all of them were present at once" % f0.path, loc=f0.loc())
         else:
@@ -1266,7 +1437,7 @@ def _f_variables(P, R, rule="R02-f"):
         if k == "MethodCall" and n["method"] in ("map", "filter", "filter_map", "flat_map", "for_each") and DIR in peel_ty(n["recv"].get("t") or ""):
             loops += 1
     bad = sorted(set(exits)) + sorted(set(partial))
-    _tri(R, rule, "variables-all-directives", False if bad else (True if loops else None),
+    _tri(_Toward(R, _var_dirs(P)), rule, "variables-all-directives", False if bad else (True if loops else None),
          "every @skip/@include of every visited selection is inspected",
          "%s leaves its traversal of a selection's directives early (%s): a variable used only by a later directive of the same selection is not "
          "branched on" % (f0.path, ", ".join(bad)),
@@ -1330,7 +1501,7 @@ def _f_skip_coverage(P, R, rule="R02-f"):
         if any(ev[0] == "assume" and ev[2] is False and any(x[0] == "call" and x[1] == names["cfc"] for x in ev[1]) and ("eq",) not in ev[1] for ev in evs):
             loose += 1
     if loose:
-        R.violated(rule, key, "paths: %s leaves out the @skip/@include variables of a fragment whose type condition does not apply to the branch's object, but %s "
+        _Toward(R, _var_dirs(P)).violated(rule, key, "paths: %s leaves out the @skip/@include variables of a fragment whose type condition does not apply to the branch's object, but %s "
                    "evaluates the skip test on a fragment's directives on a path on which the type-condition filter rejects that fragment: the test looks up a "
                    "variable the branch was never split on — generation panics on a valid document (or, with a lenient look-up, keeps the field)"
                    % (f0.path, gf.path), loc=gf.loc())
@@ -1382,7 +1553,7 @@ def _f_enumeration_table(P, R, rule, f0, vis):
             alias = {id(a if b is var else b) for a, b in same if a is var or b is var}     # names this path takes to be the same variable
             if not any(_d(x) is var or x is var or id(_d(x)) in alias or id(x) in alias for x in v):
                 missing += 1
-        _tri(R, rule, key, None if not seen else not missing, "table: the variable of %s is enumerated" % what,
+        _tri(_Toward(R, _var_dirs(P)), rule, key, None if not seen else not missing, "table: the variable of %s is enumerated" % what,
              "table: given a field whose directives are %s, %s does not enumerate the variable of %s: no branch is made for its two values, and the "
              "selection it guards is typed for one of them only" % (" ".join("@%s(if: %s)" % (n, "$v" if k == "var" else ("$w" if k == "var0" else "true")) for n, k in dirs), f0.path, what),
              "%s does not hand a closure to the visitor / does not return the list of variables; the table is not read" % f0.path, loc=f0.loc())
@@ -1418,10 +1589,10 @@ def _f_visitor(P, R, rule, vis):
                                (x[0] == "iter" and DESC[kind] in x[1]) for x in evs)
                     (descended if down else undescended).add(kind)
     if lost:
-        R.violated(rule, "visitor-every-selection", "paths: %s meets a selection that it does not hand to the visitor function: @skip/@include on selections of that kind "
+        _Toward(R, _var_dirs(P)).violated(rule, "visitor-every-selection", "paths: %s meets a selection that it does not hand to the visitor function: @skip/@include on selections of that kind "
                    "are never seen by the variable enumeration" % vis.path, loc=vis.loc())
     elif "InlineFragment" in undescended or ("FragmentSpread" in undescended and "FragmentSpread" not in descended):
-        R.violated(rule, "visitor-every-selection", "paths: %s does not descend into the selections of %s: variables used only inside are not branched on"
+        _Toward(R, _var_dirs(P)).violated(rule, "visitor-every-selection", "paths: %s does not descend into the selections of %s: variables used only inside are not branched on"
                    % (vis.path, " / ".join(sorted(k for k in undescended if k == "InlineFragment" or k not in descended))), loc=vis.loc())
     else:
         _tri(R, rule, "visitor-every-selection", True if met and descended == set(DESC) else None,
@@ -1434,11 +1605,14 @@ PARTIAL = {"find", "find_map", "next", "nth", "first", "last", "position", "take
 
 def _loop_source(fn, loop_node):
     """the iterated expression of the `for` a desugared Loop node belongs to"""
+    best = None
     for n in fn.walk():
         if n.get("k") == "Match" and n.get("src") == "ForLoopDesugar" and n.get("arms") and any(x is loop_node for x in subnodes(n["arms"][0]["body"])) \
                 and n["scrut"].get("k") == "Call" and n["scrut"].get("args"):
-            return n["scrut"]["args"][0]
-    return None
+            best = n["scrut"]["args"][0]       # (pre-order walk: the last one found is the innermost `for` around the loop node)
+            if n["arms"][0]["body"] is loop_node:
+                return best
+    return best
 
 
 def _f_possible_types(P, R):
@@ -1448,7 +1622,7 @@ def _f_possible_types(P, R):
     if not ms:
         R.undecided("R02-f", "possible-types", "no `match` over TypeDefinition in %s or its helpers: how the possible object types are enumerated is not "
                     "recognised" % g0.path, loc=g0.loc())
-    for m in ms[:1]:
+    for m in _kind_match(ms):
         tab = variant_table(m)
         pvb = Prov(g)
         ia = pvb.deep_atoms((tab.get("Interface") or tab.get("_") or {"body": None})["body"])
@@ -1512,7 +1686,7 @@ def _f_product_table(P, R, rule, g0):
                 R.holds(rule, key, "table: a variable met again after another one (%s) is listed once per branch" % names, loc=g0.loc())
             else:
                 c = _f_lookup_consistent(P)
-                _tri(R, rule, key, c, "table: a variable met again after another one is listed twice in a branch, but the skip test reads one entry per variable: the extra "
+                _tri(_Toward(R, ["wide"]), rule, key, c, "table: a variable met again after another one is listed twice in a branch, but the skip test reads one entry per variable: the extra "
                      "branches are duplicates",
                      "table: for the variables %s, %s builds branches that list `a` twice with different values, and the skip test does not read one entry per "
                      "variable: with (a, true) and (a, false) in one branch both @skip(if: $a) and @include(if: $a) omit their selection (or neither does) — an "
